@@ -251,7 +251,8 @@ func VerifC17Strings() {
 			want float64
 			ok   bool
 		}{{"010", 10, true}, {"-012", -12, true}, {"007.50", 7.5, true}, {"1e2", 100, true}, {"+5", 5, true}, {".5", 0.5, true},
-			{"0x10", 0, false}, {"0b11", 0, false}, {"0o17", 0, false}, {"12abc", 0, false}, {"", 0, false}, {"1 2", 0, false}} {
+			{"0x10", 0, false}, {"0b11", 0, false}, {"0o17", 0, false}, {"12abc", 0, false}, {"", 0, false}, {"1 2", 0, false},
+			{"inf", 0, false}, {"-Inf", 0, false}, {"nan", 0, false}, {"Infinity", 0, false}, {"0x1p4", 0, false}, {"1_000", 0, false}, {"1e", 0, false}, {".", 0, false}, {"5.", 5, true}} {
 			v, err := fEval("s | plus: 0", map[string]any{"s": c.s})
 			nd.Assert((err == nil) == c.ok, "string-spells-decimal-number")
 			if err == nil && c.ok {
@@ -266,11 +267,12 @@ func VerifC17Strings() {
 	case 5:
 		// every 3-character string over digits, sign, point, exponent, base-prefix letters and underscore:
 		// accepted exactly when it is a decimal floating-point spelling, with that value
-		s := nd.StringFrom(3, "01x_.e-")
+		s := nd.StringFrom(3, "01x_.e-n")
 		v, err := fEval("s | plus: 0", map[string]any{"s": s})
 		want, perr := strconv.ParseFloat(s, 64)
-		nd.Assert((err == nil) == (perr == nil), "string-accepted-iff-decimal-spelling")
-		if err == nil && perr == nil {
+		ok := perr == nil && c17Decimal(s)
+		nd.Assert((err == nil) == ok, "string-accepted-iff-decimal-spelling")
+		if err == nil && ok {
 			nd.Assert(v.(float64) == want, "string-spelling-value")
 		}
 	case 0:
@@ -296,6 +298,8 @@ var c17RoundCases = []struct {
 }{
 	{2.345, 2, 2.35}, {2.344, 2, 2.34}, {-0.25, 1, -0.2}, {0.25, 1, 0.3}, {1234.5678, 0, 1235}, {1234.5678, 3, 1234.568},
 	{-2.5, 0, -2}, {2.5, 0, 3}, {-7.5, 0, -7}, {0.5, 0, 1}, {-0.5, 0, 0}, {1.005, 1, 1}, {12, 2, 12}, {-1.75, 1, -1.7}, {1.75, 1, 1.8},
+	// more places than a float64 has, and rounding to a magnitude beyond it: exact, never NaN
+	{1.5, 309, 1.5}, {1.5, 400, 1.5}, {-2.25, 320, -2.25}, {1250, -2, 1300}, {15, -1, 20}, {7, -400, 0}, {1e300, 10, 1e300},
 }
 
 // VerifC17RoundPlaces: round half up to the requested number of places (forked operand set:
@@ -343,4 +347,43 @@ func VerifC17RoundPlaces() {
 		nd.Assert(err == nil && v.(float64) == -1, "modulo-sign-of-dividend")
 	}
 	nd.Reach("C17.roundplaces")
+}
+
+// c17Decimal recognises a decimal spelling: optional sign, digits with an optional point (at least
+// one digit), optional exponent.
+func c17Decimal(s string) bool {
+	i := 0
+	if i < len(s) && (s[i] == '+' || s[i] == '-') {
+		i++
+	}
+	digits := 0
+	for i < len(s) && s[i] >= '0' && s[i] <= '9' {
+		i++
+		digits++
+	}
+	if i < len(s) && s[i] == '.' {
+		i++
+		for i < len(s) && s[i] >= '0' && s[i] <= '9' {
+			i++
+			digits++
+		}
+	}
+	if digits == 0 {
+		return false
+	}
+	if i < len(s) && (s[i] == 'e' || s[i] == 'E') {
+		i++
+		if i < len(s) && (s[i] == '+' || s[i] == '-') {
+			i++
+		}
+		ed := 0
+		for i < len(s) && s[i] >= '0' && s[i] <= '9' {
+			i++
+			ed++
+		}
+		if ed == 0 {
+			return false
+		}
+	}
+	return i == len(s)
 }
